@@ -29,6 +29,7 @@ Shared& stats();
 bool ub_take(std::string& site, std::string& msg);
 void ub_clear();
 void alloc_guard_reset(bool armed);  // start of an evaluation: reset the cumulative allocation guard
+void alloc_guard_parse_begin();       // start of a guarded parse: reset the request counter
 uint64_t huge_alloc_take();  // largest request > HUGE_ALLOC seen since the last call (0 if none)
 
 // Publish the evaluation about to be executed (shared slot), bump the watchdog counter.
